@@ -158,6 +158,12 @@ void prop(const Case& cs) {
       feed(vf::Item{vf::T_I64, static_cast<uint64_t>(small_first ? pr.first : pr.second)});
       feed(vf::Item{vf::T_I64, static_cast<uint64_t>(small_first ? pr.second : pr.first)});
       vf::label("twin-address-keys");
+    } else if (op.name == "addr0") {
+      // a key whose coupon address is 0 (any value): a legitimate coupon in every mode
+      const auto& zk = vf::zero_addr_keys();
+      if (zk.empty()) continue;
+      feed(vf::Item{vf::T_U64, zk[op.uarg(0) % zk.size()]});
+      vf::label("zero-address-key");
     } else if (op.name == "level") {
       // one key per slot whose register value is exactly v: when nothing higher was seen, every register of the array holds the same
       // value (HLL_4: cur_min = v with all k registers at cur_min - the state a fresh array is in, except that it is not empty)
@@ -242,6 +248,7 @@ rc::Gen<Case> gen_main() {
       {2, op3("pool", range(1, 40), range(0, 5), range(0, 1 << 20))},
       {1, op2("level", range(0, 2), range(0, 1 << 20))},
       {2, op2("twin", range(0, 23), range(0, 1))},
+      {2, op1("addr0", range(0, 3))},
       {1, op2("dups", range(1, 500), range(0, 1 << 20))},
       {1, rc::gen::map(range(0, 19), [](int64_t x) { return x == 0 ? Op{"reset", {}} : Op{"dups", {50, x}}; })},
   });
